@@ -126,9 +126,7 @@ func Check(tr *Trace, w Which) ([]Finding, Classes) {
 				}
 				break
 			}
-			if closed {
-				break
-			}
+			// pushes after Close are ordinary pushes (only Maintain and a second Close refuse): the reference buffer continues
 			e := open[op.Seq]
 			if op.Type == TypeEOE {
 				if e != nil {
@@ -252,7 +250,7 @@ func Check(tr *Trace, w Which) ([]Finding, Classes) {
 			if cb.Nested == 1 {
 				// a re-entrant call starts here: its own effect on the reference buffer
 				nop := h.Reenter[cb.NOp].Op
-				if nop.Kind == OpPushMsg && !closed {
+				if nop.Kind == OpPushMsg {
 					id := len(h.Ops) + cb.NOp
 					e := open[nop.Seq]
 					if nop.Type == TypeEOE {
@@ -342,7 +340,7 @@ func Check(tr *Trace, w Which) ([]Finding, Classes) {
 					}
 				}
 			}
-			if w.C02 && !closed && op.Kind != OpClose {
+			if w.C02 && op.Kind != OpClose {
 				if hd := head(); hd != nil && hd != e {
 					add("C02", "non-head-delivered", "op %d: event seq=%d delivered while lower sequence seq=%d is still buffered", k, e.seq, hd.seq)
 				}
@@ -421,7 +419,7 @@ func Check(tr *Trace, w Which) ([]Finding, Classes) {
 		}
 
 		// --- C10 state checks after a push ---
-		if !closed && isPush {
+		if isPush {
 			for _, e := range open {
 				if e.complete {
 					if hd := head(); hd != e {
@@ -438,7 +436,7 @@ func Check(tr *Trace, w Which) ([]Finding, Classes) {
 				}
 			}
 		}
-		if w.C10 && st.Snap != nil && !closed {
+		if w.C10 && st.Snap != nil {
 			cl.SnapshotsSeen++
 			s := st.Snap
 			if len(s.Seqs) != len(s.Events) {
